@@ -4,7 +4,7 @@ import os
 import vlib
 
 SPEC_PROPS = {
-    "TrIn": "C01", "TrOut": "C02", "TrLife": "C04", "TrFd": "C07",
+    "TrIn": "C01", "TrOut": "C02", "TrArm": "C02", "TrLife": "C04", "TrFd": "C07",
 }
 
 
